@@ -265,3 +265,60 @@ func vC12Terminal(rc *runCtx) {
 	}
 	rc.res.Nontrivial = true
 }
+
+// vC12CancelThroughRelay: a download through one or two relays with tunnels that the user cancels in the file dialog
+// (a stand-in dialog program that exits the way a cancelled dialog does): the client says so in its ACT and hangs
+// up the tunnel at once. Nobody crashes; the relays are back in standby and transparent.
+func vC12CancelThroughRelay(rc *runCtx) {
+	tp := rc.tape
+	dir := os.Getenv("PATH")
+	if dir == "" || strings.Contains(dir, ":") {
+		return
+	}
+	z := filepath.Join(dir, "zenity")
+	if os.WriteFile(z, []byte("#!/bin/sh\nexit 1\n"), 0755) != nil {
+		return
+	}
+	defer os.Remove(z)
+	cfg := vDrawConfig(tp, false)
+	cfg.upload, cfg.timeout, cfg.trigVersion = false, 5, ""
+	cfg.tunnel = true
+	cfg.relays = 1 + tp.Draw("c12cr.relays", 2)
+	for i := 0; i < cfg.relays; i++ {
+		cfg.relayTmux = append(cfg.relayTmux, []string{"", "normal", "control"}[tp.Pick("c12cr.rtmux", 3, 1, 1)])
+	}
+	src := filepath.Join(rc.dir, "src")
+	dst := filepath.Join(rc.dir, "dst")
+	os.MkdirAll(dst, 0755)
+	spec := vGenSources(rc, src, 2, cfg.dirMode, 20000, true)
+	o := cfg.opts()
+	o.srcPaths, o.dstDir, o.noDefaultPath = spec.paths, dst, true
+	o.profile = transportProfile{segPm: 200, coalPm: 100, latPm: 300, latMax: time.Duration(1+tp.Draw("c12cr.lat", 40)) * time.Millisecond}
+	o.simCap = 10 * time.Minute
+	rc.res.ClassKey = "cancel-through-relay " + cfg.key()
+	rc.res.Scenario["config"] = cfg.key()
+	rc.fault("download-cancelled-in-dialog-through-relay-tunnel")
+	x := newXferWorld(rc, o)
+	x.start()
+	rc.w.Run(x.finished)
+	if rc.w.StepCap {
+		return
+	}
+	rep := x.report()
+	if !rep.serverExited || x.filter.IsTransferringFiles() {
+		rc.violate("hang", "C12:hang:cancel-through-relay", "a download cancelled in the file dialog through %d relay(s) with tunnels never ended (server exited=%v, client transferring=%v)", cfg.relays, rep.serverExited, x.filter.IsTransferringFiles())
+		return
+	}
+	x.settle(1500 * time.Millisecond)
+	for i, r := range x.relay {
+		if st := r.relayStatus.Load(); st != kRelayStandBy {
+			rc.violate("unusable", "C12:relay-not-standby:cancel", "after the cancelled download relay %d is still in state %d", i+1, st)
+			return
+		}
+	}
+	if msg := x.probeThroughRelays("after a download cancelled in the dialog"); msg != "" {
+		rc.violate("unusable", "C12:unusable:cancel-through-relay", "%s", msg)
+		return
+	}
+	rc.res.Nontrivial = true
+}
